@@ -8,6 +8,17 @@ Definition pe : plain := mkPlain ∅ ∅.
 Lemma pe_wf : plain_wf pe.
 Proof. intros a k _. unfold stor_get, pe; simpl. rewrite lookup_empty. reflexivity. Qed.
 
+Lemma plain_nocode_list (l : list (Z * info)) s :
+  forallb (fun x => match i_code x.2 with None => true | Some _ => false end) l = true ->
+  plain_nocode (mkPlain (list_to_map l) s).
+Proof.
+  intros H a i Hi. unfold acc_get in Hi; simpl in Hi. apply elem_of_list_to_map_2 in Hi.
+  apply elem_of_list_In in Hi. rewrite forallb_forall in H. specialize (H _ Hi). simpl in H.
+  destruct (i_code i); [discriminate|reflexivity].
+Qed.
+Lemma pe_nocode : plain_nocode pe.
+Proof. apply (plain_nocode_list [] ∅). reflexivity. Qed.
+
 Definition ci (bal : Z) : info := mkInfo bal 1 7 (Some 7).          (* a contract, code hash 7 *)
 Definition sto (l : list (Z * (Z * Z))) : gmap Z slot :=
   list_to_map (map (fun x => (x.1, mkSlot x.2.1 x.2.2)) l).
@@ -39,6 +50,16 @@ Definition eoa (bal n : Z) : info := mkInfo bal n KECCAK_EMPTY None.
 Definition p5 : plain :=
   mkPlain (list_to_map [(3, eoa 0 0); (5, mkInfo 1 1 9 None)])
           (list_to_map [(5, list_to_map [(1, 7); (2, 5)])]).
+Lemma p5_wf : plain_wf p5.
+Proof.
+  intros a k Ha. unfold stor_get. destruct (p_stor p5 !! a) as [m|] eqn:E; [|reflexivity].
+  unfold p5 in *; simpl in *.
+  destruct (decide (a = 5)) as [->|Hne].
+  - vm_compute in Ha. discriminate.
+  - rewrite lookup_insert_ne in E by congruence. rewrite lookup_empty in E. discriminate.
+Qed.
+Lemma p5_nocode : plain_nocode p5.
+Proof. apply plain_nocode_list. reflexivity. Qed.
 Definition w5 : list (list txout) :=
   [ [[(2, mkTA (Some (eoa 5 0)) InMemoryChange None LoadedNotExisting ∅ false);
       (5, mkTA (Some (mkInfo 2 1 9 None)) Changed (Some (mkInfo 1 1 9 None)) Loaded (sto [(1, (7, 8))]) false)];
@@ -74,6 +95,16 @@ Proof.
   - vm_compute in Ha. discriminate.
   - rewrite lookup_insert_ne in E by congruence. rewrite lookup_empty in E. discriminate.
 Qed.
+Lemma p6_nocode : plain_nocode p6.
+Proof. apply plain_nocode_list. reflexivity. Qed.
 Definition w6 : list (list txout) :=
   [ [[(1, t_destroy Loaded)]]; [[(1, t_create [(2, (0, 9))] Destroyed)]] ].
 Definition bw6 := bof w6.
+
+(* W7: account 1 carries its byte code in the pre-state (plain_nocode fails) and is touched
+   without being changed *)
+Definition p7 : plain := mkPlain (list_to_map [(1, ci 4)]) ∅.
+Lemma p7_wf : plain_wf p7.
+Proof. intros a k _. unfold stor_get, p7; simpl. rewrite lookup_empty. reflexivity. Qed.
+Definition w7 : list (list txout) :=
+  [ [[(1, mkTA (Some (ci 4)) Changed (Some (ci 4)) Loaded ∅ false)]] ].
